@@ -51,7 +51,7 @@ func c05treeDesc(t map[string][]byte) string {
 func TestC05(t *testing.T) {
 	rep := lib.NewReport("C05", "exploration")
 	defer rep.Finish(t)
-	rep.Rule = "trees = all maps from {+p (sorts before .datamon), q, d/r} to {absent,c1,c2} (27); ALL 729 ordered pairs (A,B) (identical - the target is then a second bundle holding the same tree -, disjoint, same path same/different content, same content under another path, empty either side): core.Diff (archive vs archive, and local copy vs archive) = set computed from the two maps, each path once with the right type and entries; core.Update(target=B, local copy of A) leaves the destination (data files and .datamon metadata) byte-identical to a fresh Publish of B; destination stores: map store and localfs; a sync loop in which ONE remote handle (retargeted through its BundleID field) and one local copy follow a chain through all 27 trees with the empty tree in between; plus, for A != B, the history 'download X (tree A), delete X, upload B under the preserved ID X, diff and update the old copy'; distinct = distinct (A,B) pairs"
+	rep.Rule = "trees = all maps from {+p (sorts before .datamon), q, d/r} to {absent,c1,c2} (27); ALL 729 ordered pairs (A,B) (identical - the target is then a second bundle holding the same tree -, disjoint, same path same/different content, same content under another path, empty either side): core.Diff (archive vs archive, local copy vs archive, local copy vs local copy, archive vs local copy) = set computed from the two maps, each path once with the right type and entries; core.Update(target=B, local copy of A) leaves the destination (data files and .datamon metadata) byte-identical to a fresh Publish of B; destination stores: map store and localfs; a sync loop in which ONE remote handle (retargeted through its BundleID field) and one local copy follow a chain through all 27 trees with the empty tree in between; plus, for A != B, the history 'download X (tree A), delete X, upload B under the preserved ID X, diff and update the old copy'; distinct = distinct (A,B) pairs"
 	L := 64
 	w := NewWorld()
 	w.Blob.NoJournal = true
@@ -169,6 +169,19 @@ func TestC05(t *testing.T) {
 					checkDiff("local-archive|"+kind,
 						core.NewBundle(core.ConsumableStore(dest), core.Logger(nopLogger)),
 						core.NewBundle(core.Repo("r"), core.ContextStores(st), core.BundleID(target(a, b)), core.Logger(nopLogger)))
+					// the other bundle given as a local copy too, on either side
+					if dest2 := newDest(local); true {
+						if _, err := downloadBundle(st, "r", target(a, b), dest2, 0); err != nil {
+							rep.Violate("C05|setup-download-error", desc+": "+err.Error(), rp)
+						} else {
+							checkDiff("local-local|"+kind,
+								core.NewBundle(core.ConsumableStore(dest), core.Logger(nopLogger)),
+								core.NewBundle(core.ConsumableStore(dest2), core.Logger(nopLogger)))
+							checkDiff("archive-local|"+kind,
+								core.NewBundle(core.Repo("r"), core.ContextStores(st), core.BundleID(ids[a]), core.Logger(nopLogger)),
+								core.NewBundle(core.ConsumableStore(dest2), core.Logger(nopLogger)))
+						}
+					}
 					guard(rep, "C05|update|"+kind, func() string { return desc }, rp, func() {
 						src := core.NewBundle(core.Repo("r"), core.ContextStores(st), core.BundleID(target(a, b)), core.Logger(nopLogger))
 						dst := core.NewBundle(core.ConsumableStore(dest), core.Logger(nopLogger))
